@@ -44,6 +44,8 @@ impl Violation {
 #[derive(Default, Debug)]
 pub struct CaseResult {
     pub violations: Vec<Violation>,
+    /// listed known findings met and excluded while exploring (never failures)
+    pub known: Vec<Violation>,
     pub labels: BTreeSet<String>,
     pub nontrivial: bool,
     /// amount of work (steps executed, probes, ...)
@@ -138,6 +140,28 @@ pub fn load_known() -> KnownFile {
     }
 }
 
+static KNOWN: std::sync::OnceLock<KnownFile> = std::sync::OnceLock::new();
+/// Is this signature listed in the committed known-findings file?
+pub fn is_known(signature: &str) -> bool {
+    KNOWN.get_or_init(load_known).known.iter().any(|k| k.signature == signature)
+}
+
+thread_local! {
+    static LENIENT: std::cell::Cell<bool> = std::cell::Cell::new(false);
+}
+/// exploration mode: listed known findings are excluded by construction and counted
+pub fn set_lenient(b: bool) {
+    LENIENT.with(|l| l.set(b));
+}
+pub fn lenient() -> bool {
+    LENIENT.with(|l| l.get())
+}
+/// A finding that is tolerated (counted, exploration continues) iff exploration is lenient and the committed
+/// file lists its signature.
+pub fn tolerated(signature: &str) -> bool {
+    lenient() && is_known(signature)
+}
+
 // ------------------------------------------------------------------------------------------------
 // replay files
 
@@ -199,6 +223,7 @@ pub fn install_panic_hook() {
 /// Run the property's check, turning a failed public query into a violation and any other harness panic
 /// into an infrastructure error (exit 2, never a violation).
 pub fn guarded_check<P: Prop>(p: &P, case: &P::Case, lenient: bool) -> CaseResult {
+    set_lenient(lenient);
     match catch_unwind(AssertUnwindSafe(|| p.check(case, lenient))) {
         Ok(r) => r,
         Err(_) => {
@@ -238,7 +263,7 @@ impl Stats {
         for (k, v) in &r.counters {
             *self.counters.entry(k.clone()).or_default() += v;
         }
-        for v in &r.violations {
+        for v in r.violations.iter().chain(r.known.iter()) {
             if known.contains(&v.signature) {
                 *self.known_hits.entry(v.signature.clone()).or_default() += 1;
             }
